@@ -2,3 +2,21 @@
 from .base import REG
 from . import task, delay, config, cluster, deps, planner, buffer, world, scheduler, telescope, simulation, algorithms   # noqa
 from .notes import PROPERTY_NOTES  # noqa
+
+# Pure queries (empty frame) whose own proofs need neither the class invariants nor the heap invariants: they are verified
+# WITHOUT assuming them, so a caller may use them in the middle of an update (no invariant obligation at the call site, and
+# nothing is re-assumed after the call).  Every other callee with `invariants=True` was verified assuming the invariants on
+# entry: there the invariants are obligations of the caller at every call site (pre:<callee>@<site>:inv:<clause>).
+INVARIANT_FREE_QUERIES = [
+    'Cluster.get_available_resources', 'Cluster.current_available_resources', 'Cluster.get_idle_resources',
+    'Cluster.is_observation_provisioned', 'Cluster.is_occupied', 'Cluster.is_task_finished', 'Cluster.__len__',
+    'Cluster.check_ingest_capacity', 'Cluster.get_machine_from_id', 'Cluster.finished_task_time_data', 'Cluster.finished_tasks',
+    'WorkflowPlan.get_task_successors', 'WorkflowPlan.get_task_predecessors', 'Planning._calc_workflow_est',
+    'HotBuffer.has_capacity_for', 'ColdBuffer.has_capacity_for', 'HotBuffer.has_stored_observations', 'Buffer.is_empty', 'Buffer.to_df',
+    'Scheduler.is_idle', 'Scheduler._find_pred_allocations', 'Planner.run', 'Scheduler.to_df', 'Observation.is_ready',
+    'Observation.is_finished', 'Telescope.is_idle', 'Telescope.has_observations_to_process', 'Telescope.observations_waiting',
+    'Telescope.observations_finished', 'Telescope._calc_observation_delay', 'Telescope.to_df', 'Buffer.check_buffer_capacity',
+]
+for _q in INVARIANT_FREE_QUERIES:
+    assert not REG.contracts[_q].modifies, _q
+    REG.contracts[_q].invariants = False
